@@ -137,8 +137,10 @@ class InducingPointKernel(Kernel):
             likelihood=copy.deepcopy(self.likelihood, memo),
             active_dims=self.active_dims,
         )
-        # a freshly constructed module is in training mode: keep the mode of the kernel being copied
+        # a freshly constructed module is in training mode and its inducing points are trainable:
+        # keep the mode of the kernel being copied and whether its inducing points are held fixed
         cp.training = self.training
+        cp.inducing_points.requires_grad_(self.inducing_points.requires_grad)
 
         if replace_inv_root:
             cp._cached_kernel_inv_root = kernel_inv_root
